@@ -41,7 +41,9 @@ Fixes == [ f0 |-> [vars |-> {}, form |-> "string"], f1 |-> [vars |-> {"A"}, form
            f2 |-> [vars |-> {"X"}, form |-> "string"], f3 |-> [vars |-> {"Z"}, form |-> "string"],
            f4 |-> [vars |-> {"X"}, form |-> "object"], f5 |-> [vars |-> {"A"}, form |-> "object"],
            f6 |-> [vars |-> {"C"}, form |-> "string"] ]
-Rews == [ r0 |-> <<>>, r1 |-> [x \in {"R1"} |-> [hasFix |-> TRUE]], r2 |-> [x \in {"R1"} |-> [hasFix |-> FALSE]] ]
+\* r3: the rewriter's fix uses a variable captured by the enclosing rule (it sees the enclosing environment)
+Rews == [ r0 |-> <<>>, r1 |-> [x \in {"R1"} |-> [hasFix |-> TRUE]], r2 |-> [x \in {"R1"} |-> [hasFix |-> FALSE]],
+          r3 |-> [x \in {"R1"} |-> [hasFix |-> TRUE]] ]
 
 VARIABLES m, u, c, t, f, r
 vars == <<m, u, c, t, f, r>>
